@@ -84,7 +84,35 @@ fn evicted_associations(s: &mut Session, rng: &mut Rng) {
     }
 }
 
+/// the link between client and server fails right behind data (the target's answer is carried to the client in one piece
+/// and the connection is reset behind it): everything the client had received is delivered to the application before
+/// its end-of-stream - answers that fit one read, one write buffer, and several
+pub fn link_reset_cases(s: &mut Session, thorough: bool, rng: &mut Rng) {
+    for base in protocol_ciphers(rng) {
+        let family_pick = matches!((base.protocol, base.cipher, base.users.as_str()), ("shadowsocks", "aes-128-gcm", _) | ("shadowsocks", "2022-blake3-aes-256-gcm", "-") | ("vmess", "aes-128-gcm", _) | ("trojan", _, _));
+        if !thorough && !family_pick {
+            continue;
+        }
+        let cfg = base.with("tcp");
+        s.begin_case(&format!("link-reset-behind-answer:{}", cfg.label()));
+        let Some(w) = cfg.start(s, true, 4) else {
+            s.oracle_fail(&format!("start:{}", cfg.label()), "a README-supported configuration does not start");
+            continue;
+        };
+        let sizes: &[usize] = if thorough { &[1, 200, 1000, 6000, 8192, 8193, 30000, 100000] } else { &[200, 6000, 30000] };
+        for size in sizes {
+            let r = s.run(&format!("e2e.linkreset {} size={}", w, size));
+            if r != "answer=complete" {
+                s.oracle_fail(&format!("lost_link-reset:{}", cfg.label()), &format!("the link was reset right behind an answer of {} bytes that the client had received: the application got `{}`", size, r));
+            }
+        }
+        s.run(&format!("e2e.stop {}", w));
+        s.mark_nontrivial();
+    }
+}
+
 pub fn generate(s: &mut Session, tier: &str, rng: &mut Rng) {
+    link_reset_cases(s, tier == "thorough", rng);
     let thorough = tier == "thorough";
     truncated_end(s, rng);
     evicted_associations(s, rng);
